@@ -424,6 +424,12 @@ def spec_check(plan, ops, arrivals, reports):
                                  f"{avail[delivered]['data'].hex()} had been received completely at {avail[delivered]['t']} ms "
                                  f"and not been delivered"))
                     break
+    # S0: a client operation ends with its result, a timeout or a connection error - never with another exception
+    for i, op in client_ops:
+        if i in results and results[i][1].startswith("exc:"):
+            viol.append(("operation-raises-unexpected-exception",
+                         f"{op[0]} issued at op {i} ended with {results[i][1][4:]} at {results[i][0]} ms"))
+            break
     # S2: write result vs. matching ack
     for i, op in client_ops:
         if op[0] != "write" or i not in results:
@@ -615,6 +621,29 @@ def corpus():
                                      ["E"], ["A", 50]] + reads(2), yields=y)
         P("eof-then-reads:dO,dT,alive,dT", [["F", [["dO", a["dO"].hex()], ["dT", a["dT"].hex()], ["alive", a["alive"].hex()],
                                                   ["dT", b["dT"].hex()]], [9]], ["E"], ["A", 5]] + reads(3), yields=y)
+    return out
+
+
+def bursts(ctx):
+    """more frames than any small queue bound pile up unconsumed - while the client is idle, and in the local list of a
+    write waiting for its ack - followed by an alive check, then everything is read: the reader task must not stall behind
+    the backlog (alive check answered at its arrival) and putting the skipped frames back must not fail"""
+    out = []
+    for n in (33, 48, 80) if ctx.quick and not ctx.widened else (33, 34, 48, 65, 80, 130):
+        labels = ["dT" if i in (1, n // 2, n - 1) else "dO" for i in range(n)]
+        for y in (0, 1):
+            fs = frames_of(labels, REQ_SHORT)
+            al = frames_of(["alive"], REQ_SHORT)
+            ack = frames_of(["ack"], REQ_SHORT)
+            out.append(("burst-idle", {"cfg": cfg(1000, y), "pos": "burst-idle", "labels": labels + ["alive"],
+                                       "steps": [["F", fs, []], ["A", 50], ["F", al, []], ["A", 20]] + reads(4)
+                                       + [["W", REQ_SHORT.hex(), None], ["A", 10], ["F", ack, []], ["A", 20]]}))
+            out.append(("burst-idle-segments", {"cfg": cfg(1000, y), "pos": "burst-idle", "labels": labels + ["alive"],
+                                                "steps": [s for j in range(0, n, 7) for s in (["F", fs[j:j + 7], []], ["A", 3])]
+                                                + [["F", al, []], ["A", 20]] + reads(4)}))
+            out.append(("burst-ack-wait", {"cfg": cfg(1000, y), "pos": "burst-ack-wait", "labels": labels + ["alive", "ack", "alive"],
+                                           "steps": [["W", REQ_SHORT.hex(), None], ["A", 7], ["F", fs, []], ["A", 30], ["F", al, []],
+                                                     ["A", 30], ["F", ack, []], ["A", 30], ["F", al, []], ["A", 20]] + reads(4)}))
     return out
 
 
@@ -852,7 +881,7 @@ def run(ctx):
     ctx.rule = ("a case = (configuration, operation script); distinct by the lowered script; non-trivial = the script injects at "
                 "least one gateway frame or lets a timer expire; every case is run on the real HSFZTransport and on the model and "
                 "all per-operation reports are compared")
-    plans = [("corpus", p) for p in corpus()] + gen_plans(ctx)
+    plans = [("corpus", p) for p in corpus()] + bursts(ctx) + gen_plans(ctx)
     plans = [(l, fix_ties(p)) for l, p in plans]
     nproc = max(1, min(8, (os.cpu_count() or 2) // 2))
     impl = run_impl_many([p for _, p in plans], nproc)
